@@ -646,9 +646,9 @@ func c08Class(g *c08Gen) string {
 
 func init() {
 	core.Register(&core.Prop{
-		ID:    "C08",
-		Level: "exploration",
-		Rule: "random loops: iterable from {[]int len 0-6, []string, []interface{}, array, *[]int, array literal, range/between/until, custom Iterator, nil, nil slice, map[string]int, map[int]string, empty map, 5 non-iterables} x (key,value)/(value) heads x bodies from a statement grammar (text, key, value, let, fn literal, if-guarded break/continue/return in 3 tag forms at any position, if blocks, inner loops in output/silent form with their own control statements, trailing return), printed multi-tag or single-tag; nesting depth <= 2. Oracle: a reference loop interpreter (one body evaluation per element in order; continue/break/return keep what the iteration produced); maps compared as multisets of bracketed iterations; control-free bodies additionally compared with the same body rendered element by element (unrolling). Non-trivial = every generated loop (distinct by template hash).",
+		ID:      "C08",
+		Level:   "exploration",
+		Rule:    "random loops: iterable from {[]int len 0-6, []string, []interface{}, array, *[]int, array literal, range/between/until, custom Iterator, nil, nil slice, map[string]int, map[int]string, empty map, 5 non-iterables} x (key,value)/(value) heads x bodies from a statement grammar (text, key, value, let, fn literal, if-guarded break/continue/return in 3 tag forms at any position, if blocks, inner loops in output/silent form with their own control statements, trailing return), printed multi-tag or single-tag; nesting depth <= 2. Oracle: a reference loop interpreter (one body evaluation per element in order; continue/break/return keep what the iteration produced); maps compared as multisets of bracketed iterations; control-free bodies additionally compared with the same body rendered element by element (unrolling). Non-trivial = every generated loop (distinct by template hash).",
 		Assume:  []string{"map bodies contain no break (visiting order is unspecified)", "text inside silent if blocks before a control statement is not generated (unspecified whether it is kept)"},
 		Batches: batchesQT(16, 64),
 		Run:     c08Run,
